@@ -275,7 +275,7 @@ class SupervisedOPF(OPF):
 
         logger.info("Learning the best classifier ...")
 
-        max_acc = 0
+        max_acc = -1
         previous_acc = 0
 
         t = 0
